@@ -65,8 +65,8 @@ struct SimAbort { };   // thrown through library code to end a run at a violatio
 enum Phase { PH_NONE = 0, PH_GEN = 1, PH_COMPILE = 2, PH_LOAD = 3, PH_VMRUN = 4, PH_DEBUGGER = 5, PH_SCAN = 6, PH_MACRO = 7, PH_HARNESS = 8, PH_SESSION = 9 /* instructions executed inside a debugger session; the uninterrupted run has executed the same instructions before */ };
 extern volatile int *g_phase_slot;
 extern volatile long long g_progress;          // bumped by every hook event, every phase change and by long harness loops
-inline void bump_progress() { g_progress = g_progress + 1; }
-inline void set_phase(int ph) { if (g_phase_slot) *g_phase_slot = ph; bump_progress(); }
+inline void bump_progress() { __atomic_fetch_add(&g_progress, 1, __ATOMIC_RELAXED); }
+inline void set_phase(int ph) { if (g_phase_slot) __atomic_store_n(g_phase_slot, ph, __ATOMIC_RELAXED); bump_progress(); }
 // Last-resort guard against a loop that passes no hook point: a timer in the process itself ends it with exit code 99
 // when nothing has made progress for `stall_s` seconds, or 98 after `hard_s` seconds in one run (call run_started()).
 void arm_guard(int stall_s, int hard_s);
